@@ -25,6 +25,7 @@ import math
 
 UNARY = ('neg', 'exp', 'sin', 'cos', 'tanh', 'sqrt', 'log')
 BINOPS = ('+', '-', '*', '%')
+VIEWS = ('rev', 'drop1', 'take2')      # |E  1_E  2#E
 
 # Smooth lambdas used under Each: key -> (Klong text, tree over the lambda's own scalar parameter 'x')
 LAMBDAS = {
@@ -190,7 +191,7 @@ _P = None       # {'k': slot to perturb, 'i': running slot counter, 'delta': rel
 def _ev(t, b, n):
     r = _ev0(t, b, n)
     p = _P
-    if p is not None and t[0] not in ('var', 'idx', 'vidx', 'join'):
+    if p is not None and t[0] not in ('var', 'idx', 'vidx', 'join', 'view'):
         # every element of every operator result is one slot; slot k gets its value (not its tangent) scaled by 1+delta
         if isinstance(r, list):
             for j, e in enumerate(r):
@@ -243,6 +244,16 @@ def _ev0(t, b, n):
     if k == 'join':
         x, y = _ev(t[1], b, n), _ev(t[2], b, n)
         return (x if isinstance(x, list) else [x]) + (y if isinstance(y, list) else [y])
+    if k == 'view':
+        # structural list operations (no arithmetic): their result may share memory with the operand in the implementation
+        v = _ev(t[2], b, n)
+        if not isinstance(v, list):
+            raise ValueError('view of a non-vector')
+        if t[1] == 'rev':
+            return v[::-1]
+        if len(v) < 2:
+            raise NotSmooth('drop/take of a list shorter than 2 (empty result / cyclic take)')
+        return v[1:] if t[1] == 'drop1' else v[:2]
     raise ValueError('unknown node %r' % (t,))
 
 
@@ -326,6 +337,8 @@ def size(t):
         return 1 + size(t[2]) + size(t[3])
     if k == 'join':
         return 1 + size(t[1]) + size(t[2])
+    if k == 'view':
+        return 1 + size(t[2])
     raise ValueError(t)
 
 
